@@ -48,12 +48,12 @@ theorem C10_stable_until_reset (ops : List Op) (f : Fut) (o : Outc) (h : f.out =
 /-- ConstFuture and ErrorFuture are complete from construction and, without `reset_unsafe()`, stay exactly so through
     every history: each observation shows the constructor's outcome, no notification (their `on_computed` is the sinking
     hook) and no computation.  `ErrorFuture(None)` is complete with the VALUE None (see `C10_set_error_none`). -/
-theorem C10_const_complete (k : Kind) (hk : k.sinking = true) (ops : List Op) (hr : .reset ∉ ops) :
-    (init k).out = some (match k with | .const v => .val v | .error e => .err e | _ => .val 0) ∧
-    ∀ ob ∈ run (init k) ops, ob.after = (init k).out ∧ ob.cbs = [] ∧ ob.runs = 0 := by
+theorem C10_const_complete (k : Kind) (c : Cfg) (hk : k.sinking = true) (ops : List Op) (hr : .reset ∉ ops) :
+    (init k c).out = some (match k with | .const v => .val v | .error e => .err e | _ => .val 0) ∧
+    ∀ ob ∈ run (init k c) ops, ob.after = (init k c).out ∧ ob.cbs = [] ∧ ob.runs = 0 := by
   cases k <;> simp [Kind.sinking] at hk <;> refine ⟨rfl, ?_⟩ <;> intro ob hob
   all_goals
-    have h := (C10_stable_until_reset ops (init _) _ rfl hr).2.2 ob hob
+    have h := (C10_stable_until_reset ops (init _ c) _ rfl hr).2.2 ob hob
     exact ⟨h.1, h.2.1, h.2.2.1⟩
 
 /-- `set_error(None)` (and `ErrorFuture(None)`) complete the future with the VALUE None: on an uncomputed future it is
@@ -80,7 +80,10 @@ theorem C10_notify_once_after_visible (f : Fut) (op : Op) (o : Outc)
   case reset => simp_all
   case subscribe => split at h1 <;> simp_all
   case unsubscribe => (repeat' split at h1) <;> simp_all
-  all_goals (cases hk : f.kind <;> cases ha : f.alive <;> simp_all [compute, complete_eq])
+  case option d on => cases d <;> simp_all
+  case raiseIfError => simp_all
+  case inspect => simp_all
+  all_goals (cases hk : f.kind <;> cases ha : f.alive <;> cases hx : hookExc f <;> simp_all [compute, complete_eq])
 
 /-- counting form: handler `j` is notified exactly as often as it is subscribed (once, for the harness' distinct ids),
     for every list of subscriber behaviours -/
@@ -100,7 +103,10 @@ theorem C10_subs_after_completion (f : Fut) (op : Op) (o : Outc)
   case reset => simp_all
   case subscribe => split at h1 <;> simp_all
   case unsubscribe => (repeat' split at h1) <;> simp_all
-  all_goals (cases hk : f.kind <;> cases ha : f.alive <;> simp_all [compute, complete_eq])
+  case option d on => cases d <;> simp_all
+  case raiseIfError => simp_all
+  case inspect => simp_all
+  all_goals (cases hk : f.kind <;> cases ha : f.alive <;> cases hx : hookExc f <;> simp_all [compute, complete_eq])
 
 /-- handlers that do not touch the handler list (well-behaved, raising, re-entrant) all stay subscribed -/
 theorem C10_passive_subs_stay (subs : List Sub)
@@ -189,18 +195,18 @@ theorem C10_provider_once_epoch (f : Fut) (ops : List Op) (hr : .reset ∉ ops) 
 
 /-- over any history from construction: runs ≤ 1 + the number of resets THAT FOUND THE FUTURE COMPUTED (a
     `reset_unsafe()` of an uncomputed future buys no further run) -/
-theorem C10_provider_once (k : Kind) (ops : List Op) :
-    (finalState (init k) ops).runs ≤ 1 + effResets (init k) ops := by
-  have h := runs_effResets ops (init k)
-  have := used_le (finalState (init k) ops)
-  have h0 : (init k).runs = 0 := by cases k <;> rfl
+theorem C10_provider_once (k : Kind) (c : Cfg) (ops : List Op) :
+    (finalState (init k c) ops).runs ≤ 1 + effResets (init k c) ops := by
+  have h := runs_effResets ops (init k c)
+  have := used_le (finalState (init k c) ops)
+  have h0 : (init k c).runs = 0 := by cases k <;> rfl
   omega
 
 /-- corollary in terms of the history alone -/
-theorem C10_provider_once_count (k : Kind) (ops : List Op) :
-    (finalState (init k) ops).runs ≤ 1 + ops.count .reset := by
-  have := C10_provider_once k ops
-  have := effResets_le_count ops (init k)
+theorem C10_provider_once_count (k : Kind) (c : Cfg) (ops : List Op) :
+    (finalState (init k c) ops).runs ≤ 1 + ops.count .reset := by
+  have := C10_provider_once k c ops
+  have := effResets_le_count ops (init k c)
   omega
 
 /-- the bound of `C10_provider_once` is attained ... -/
@@ -217,8 +223,8 @@ example : ¬ (finalState (init (.lazyOk 1)) [.value, .reset, .value]).runs ≤ 0
 /-- **C10 as a whole**: for every kind of future and every history of operations, the observations of the
     model are accepted by the observer `spec` - the same Boolean function the check evaluates on the
     observations of the real implementation. -/
-theorem C10_spec_holds (k : Kind) (ops : List Op) : spec k (run (init k) ops) = true := by
-  obtain ⟨w', h⟩ := watchRun_ok k ops (watchInit k) (init k) (rel_init k)
+theorem C10_spec_holds (k : Kind) (c : Cfg) (ops : List Op) : spec k (run (init k c) ops) c = true := by
+  obtain ⟨w', h⟩ := watchRun_ok k ops (watchInit k c) (init k c) (rel_init k c)
   simp [spec, h]
 
 /-- what the observer ENFORCES about the computation, for arbitrary observations (not only the model's): an accepted
@@ -247,13 +253,110 @@ theorem C10_spec_enforces_outcome (k : Kind) (w w' : Watch) (ob : Obs) (o : Outc
 /-- an accepted computing read reports the stored outcome, except for the two kind-specific answers of `freshReadOk` -/
 theorem C10_spec_enforces_read (k : Kind) (w w' : Watch) (ob : Obs) (o : Outc) (h : watchStep k w ob = .ok w')
     (hop : ob.op = .value ∨ ob.op = .call ∨ ob.op = .error) (ha : ob.after = some o)
-    (hk : ∀ e, k ≠ .lazyErr e) (hk' : ∀ v v', k ≠ .lazySelfSet v v') :
+    (hk : ∀ e, k ≠ .lazyErr e) (hk' : ∀ v v', k ≠ .lazySelfSet v v') (hh : hookMay k w = false) :
     ob.res = (if ob.op = .error then readError o else readValue o) := by
   unfold watchStep at h
   cases hkn : w.known <;> rcases hop with hop | hop | hop <;> simp only [hkn, hop, ha] at h <;>
     (repeat' split at h) <;> cases k <;> simp_all [freshReadOk, readOk]
 
+/-- what the observer ENFORCES about notifications, for arbitrary observations and WHATEVER the completing operation
+    answered (its plain result, or the exception of a failing perf-stats step): an accepted observation that shows an
+    uncomputed future computed with `o` carries exactly the notifications the property asks for (`notifiedAll`), and the
+    observer goes on with outcome `o` and the handler list the round leaves behind -/
+theorem C10_spec_enforces_notify (k : Kind) (w w' : Watch) (ob : Obs) (o : Outc) (h : watchStep k w ob = .ok w')
+    (hkn : w.known = none) (ha : ob.after = some o) :
+    notifiedAll w.subs ob.cbs o = true ∧ w'.known = some o ∧ w'.subs = afterNotify w.subs := by
+  unfold watchStep at h
+  cases hop : ob.op <;> simp only [hkn, hop, ha] at h <;> (repeat' split at h) <;> simp_all <;>
+    (subst h; simp_all)
+
+/-- an accepted `set_value` / `set_error` on a future known uncomputed returns normally - unless the future is an
+    AsyncTask whose perf-stats step cannot run (no profiler id / an argument without repr) completed under COLLECT_PERF_STATS (`hookMay`): then, and only then, the completer may
+    get the exception of the perf-stats step instead -/
+theorem C10_spec_enforces_set (k : Kind) (w w' : Watch) (ob : Obs) (h : watchStep k w ob = .ok w')
+    (hkn : w.known = none) (hop : ob.op.isSet = true) :
+    ob.res = .unit ∨ (hookMay k w = true ∧ ob.res = .raised .hook) := by
+  unfold watchStep at h
+  cases hop' : ob.op <;> simp only [hkn, hop', Op.isSet] at h hop <;> (try contradiction) <;>
+    (repeat' split at h) <;> simp_all [setResOk]
+
+/-! ### debug options switched while the future is in flight -/
+
+def Op.quiet : Op → Bool
+  | .option _ _ | .raiseIfError | .inspect => true
+  | _ => false
+
+/-- switching a debug option, `raise_if_error()` and `repr()` / `str()` are quiet from ANY state: outcome, handler list,
+    run counter and generator stay as they are and nobody is notified - in particular none of them computes the future -/
+theorem C10_quiet_ops (f : Fut) (op : Op) (h : op.quiet = true) :
+    (step f op).1.out = f.out ∧ (step f op).1.subs = f.subs ∧ (step f op).1.runs = f.runs ∧
+    (step f op).1.alive = f.alive ∧ (step f op).1.kind = f.kind ∧ (step f op).2.2 = [] := by
+  cases op <;> simp [Op.quiet] at h
+  case option d on => cases d <;> simp [step]
+  case raiseIfError => cases ho : f.out <;> simp [step, ho]
+  case inspect => simp [step]
+
+/-- **a failing perf-stats step does not cost a notification**: whichever operation completes an uncomputed future, the
+    exception of `collect_perf_stats()` reaches the completer exactly when the future is an AsyncTask whose perf-stats step
+    cannot run and COLLECT_PERF_STATS is on at that moment (`hookFails`: e.g. the option was switched on after the task was
+    created, so that it has no profiler id; or repr() of an argument raises) - and
+    in BOTH cases the outcome is stored and every subscriber of the snapshot is notified once, reading it.
+    (AsyncTask._computed runs the step inside `try: ... finally: FutureBase._computed(self)`.) -/
+theorem C10_hook_failure_after_notification (f : Fut) (op : Op) (o : Outc)
+    (h0 : f.out = none) (h1 : (step f op).1.out = some o) :
+    ((step f op).2.1 = .raised .hook ↔ hookFails f = true) ∧ (step f op).2.2 = f.subs.map (notif o) := by
+  refine ⟨?_, C10_notify_once_after_visible f op o h0 h1⟩
+  cases op <;> simp only [step, h0] at h1 ⊢
+  case isComputed => simp_all
+  case reset => simp_all
+  case subscribe => split at h1 <;> simp_all
+  case unsubscribe => (repeat' split at h1) <;> simp_all
+  case option d on => cases d <;> simp_all
+  case raiseIfError => simp_all
+  case inspect => simp_all
+  all_goals (cases hk : f.kind <;> cases ha : f.alive <;> cases hp : f.perf <;> cases hi : f.statsOk <;>
+    simp_all [compute, complete_eq, setRes, hookExc, hookFails, Kind.isTask, readValue, readError] <;>
+    (try (cases o <;> simp_all)))
+
+/-- only `option COLLECT_PERF_STATS` changes whether the step will fail; whether it CAN run is fixed at creation -/
+theorem C10_hook_state (f : Fut) (op : Op) :
+    (step f op).1.statsOk = f.statsOk ∧ ((∀ on, op ≠ .option .perfStats on) → (step f op).1.perf = f.perf) := by
+  cases op <;> cases ho : f.out <;> cases hk : f.kind <;> cases ha : f.alive <;>
+    simp_all [step, compute, complete_eq] <;> (repeat' split) <;> simp_all
+
 /-! ## non-vacuity and rejection examples -/
+
+/-- profiling switched on while the task is in flight: the completing read gets the exception of the perf-stats step,
+    both subscribers (one of them raising) were notified and read the outcome, later reads report it -/
+example : (run (init (.taskOk 1) { statsOk := false })
+      [.subscribe 1 .raising, .subscribe 2 .good, .option .perfStats true, .value, .value, .setValue 2]).map
+      (fun ob => (ob.res, ob.cbs.map (fun c => (c.sub, c.seen)), ob.after))
+    = [(.unit, [], none), (.unit, [], none), (.unit, [], none),
+       (.raised .hook, [(1, some (.val 1)), (2, some (.val 1))], some (.val 1)),
+       (.ok 1, [], some (.val 1)), (.raised .alreadyComputed, [], some (.val 1))] := by decide
+/-- the same task with a profiler id and printable arguments (profiling on when it was created, or the compiled build): no exception -/
+example : ((run (init (.taskOk 1) { statsOk := true, perf := true }) [.subscribe 1 .good, .value]).map (·.res))
+    = [.unit, .ok 1] := by decide
+/-- the observer rejects the lost notification under a failing perf-stats step (seeded change C10-9: the step moved out
+    of the try/finally): outcome stored, completer got the exception, nobody notified -/
+example : specClause (.taskOk 1)
+    [{ op := .subscribe 1 .good, res := .unit, cbs := [], after := none, runs := 0 },
+     { op := .option .perfStats true, res := .unit, cbs := [], after := none, runs := 0 },
+     { op := .value, res := .raised .hook, cbs := [], after := some (.val 1), runs := 1 }]
+     { statsOk := false } = "notify-once@value" := by decide
+/-- ... and the exception of the perf-stats step from a task that has a profiler id, or while profiling is off -/
+example : specClause (.taskOk 1)
+    [{ op := .option .perfStats true, res := .unit, cbs := [], after := none, runs := 0 },
+     { op := .value, res := .raised .hook, cbs := [], after := some (.val 1), runs := 1 }] = "compute-read@value" := by decide
+example : specClause (.taskOk 1)
+    [{ op := .setValue 3, res := .raised .hook, cbs := [], after := some (.val 3), runs := 0 }]
+     { statsOk := false } = "set@setValue" := by decide
+/-- `raise_if_error()` and `repr()` of an uncomputed future must not compute it -/
+example : specClause (.lazyOk 1)
+    [{ op := .inspect, res := .unit, cbs := [], after := some (.val 1), runs := 1 }] = "provider-once@inspect" := by decide
+example : (run (init (.lazyErr 2)) [.raiseIfError, .inspect, .error, .raiseIfError]).map (fun ob => (ob.res, ob.runs))
+    = [(.unit, 0), (.unit, 0), (.raised (.user 2), 1), (.raised (.user 2), 1)] := by decide
+
 
 /-- a concrete history with a raising subscriber, a failed set, a reset and a recomputation -/
 example : spec (.lazyErr 2)
